@@ -589,7 +589,7 @@ def prefix_passthrough(rep, u, fname="str_net_to_ss"):
     BUF, ADDR, OUT = 0x1000, 0x2000, 0x3000
     n = 0
     for fam, fname_, full in ((2, "AF_INET", 32), (10, "AF_INET6", 128)):
-        for have, v in [(1, x) for x in (0, 1, 8, 24, 31, 32, 64, 127, 128) if x <= full] + [(0, None)]:
+        for have, v in [(1, x) for x in (0, 1, 8, 24, 31, 32, 33, 64, 127, 128)] + [(0, None)]:
             pe = r_stride.PE(u)
             bind = {"buf": BUF, "buf_size": 20, "addr": ADDR, "preflen_ret": OUT, "addr->ss_family": fam,
                     key(srch[0]): (BUF + 10) if have else 0, key(addrp[0]): 0}
@@ -612,6 +612,12 @@ def prefix_passthrough(rep, u, fname="str_net_to_ss"):
                 continue
             got = ev[-1][1].get("*(preflen_ret)") if ev else None
             want = v if have else full
+            if have and v > full:
+                # longer than the family's address: not a network of this family
+                desc = "%s refuses %s text with a '/%d' suffix (longer than the %d bit address)" % (fname, fname_, v, full)
+                (rep.proved if ret != 0 else rep.violated)("R-SPEC", fn, inst, desc, "status %s" % ret if ret != 0 else
+                                                           "accepted with *preflen_ret = %s: \"10.0.0.0/%d\" is taken as a network and indexes the 33-entry mask table behind its end" % (got, v))
+                continue
             if ret != 0:
                 rep.violated("R-SPEC", fn, inst, desc, "the call fails with status %s although the address parser accepted the text" % ret)
             elif got == want:
